@@ -130,7 +130,10 @@ def oracle(s, impl, spec_line):
         if [un(x) for x in bases] != want_b:
             return ("bases-order", f"class {e.name}: bases {bases}, supertypes in declaration order {want_b}",
                     {"entity": e.name, "got": [un(x) for x in bases], "want": want_b})
-        got = [unescape(re.sub(r"^inherited\d+__", "", p)) for p in (ctor or [])]
+        # the inherited parameters come first and carry the prefix `inherited<i>__`; an own attribute may itself be called so
+        n_own = len([a for a in e.attrs if a.kind in "eo"])
+        n_inh = max(len(ctor or []) - n_own, 0)
+        got = [unescape(re.sub(r"^inherited\d+__", "", p) if i < n_inh else p) for i, p in enumerate(ctor or [])]
         if got != want_c:
             return ("ctor-order", f"class {e.name}: constructor takes {ctor}, Part 21 order of the explicit attributes is {want_c}",
                     {"entity": e.name, "got": got, "want": want_c})
@@ -441,13 +444,18 @@ def classify(o, s):
         if any(k in top and k + "_" in top for k in ESCAPABLE):
             # the escaped keyword `k` and a declared `k_` are written under one Python name: one of the two definitions is lost
             return "names:keyword-underscore-collision"
+    if kind == "compile-error" and "duplicate argument 'inherited" in detail:
+        for e in s.entities:
+            if any(re.fullmatch(r"inherited\d+__\w+", a.name) for a in e.attrs if a.kind in "eo") and e.supers:
+                # an own explicit attribute is called like one of the `inherited<i>__<name>` parameters of the same constructor
+                return "ctor:own-attribute-named-like-inherited-parameter"
     if kind == "import-error" and "method resolution order" in detail and not c3_linearisable(s):
         return "import-error:no-c3-linearisation"
     return key_of(kind, s)
 
 
 CLASSES = ("ctor-order:shared-ancestor-twice", "bases-order:not-declaration-order", "bases-order:ancestor-before-descendant",
-           "import-error:no-c3-linearisation", "names:keyword-underscore-collision")
+           "import-error:no-c3-linearisation", "names:keyword-underscore-collision", "ctor:own-attribute-named-like-inherited-parameter")
 
 
 def report(ctx, run, results, schemas, cap=8):
